@@ -791,9 +791,14 @@ PROPS = {
                        "reader's name scanner, real text): the octets it hands to the unchecked constructor of RelativeName are a correctly encoded "
                        "relative name at both call sites (labels of 1..=63 octets: an empty label inside a name is refused -- D32 --, the invariant is "
                        "carried through convert_label's contract), its expect() cannot fail, and a name it returns is that relative part chained to "
-                       "the origin or the root with at most 255 octets together -- a valid absolute name (C03).",
+                       "the origin or the root with at most 255 octets together -- a valid absolute name (C03). In-place conversion of octet data "
+                       "(EntryScanner::{append_data, convert_one_token, convert_token, convert_entry}, real text): converted octets never overwrite "
+                       "input that is still to be read (same_reader) and move to a builder of their own, with everything converted so far, before they "
+                       "would; the decoder gets its symbols and then process_tail exactly once, last, and the result is everything it handed out; the "
+                       "loop over the tokens of an entry terminates because every token moves the reader on -- proved from next_item and next_symbol "
+                       "agreeing on which octets end an unquoted token (special_octet / Symbol::is_word_char).",
         "not_covered": "Layout independence beyond the metamorphic search c07_search_layouts (a relation between two runs on two files; no contract on a single call expresses it), "
-                       "the rest of EntryScanner (scan_entry, convert_token, convert_entry, in-place rewriting with from_utf8_unchecked), record-data "
+                       "the rest of EntryScanner (scan_entry, scan_octets, scan_ascii_str with from_utf8_unchecked, scan_svcb_octets; convert_token / convert_entry / append_data are under contract: in-place safety, converter protocol, termination of the token loop -- but not which symbols a token consists of), record-data "
                        "scan() functions, $ORIGIN/$TTL/class inheritance, error positions. Symbol::from_slice_index is assumed to "
                        "return an end position inside the buffer (its own totality is not proved).",
         "assumptions": [
